@@ -30,14 +30,14 @@ def check(case, ctx):
     tth = math.radians(case["tthd"])
     eta = case["eta"] + 0.0
     tx, ty, tz = [x + 0.0 for x in case["tilt"]]
-    R = O.Rx(tx) @ O.Ry(ty) @ O.Rz(tz)
+    R = O.ro(O.Rx(tx) @ O.Ry(ty) @ O.Rz(tz))
     for mname, m in (("tools", tools), ("laue", laue)):
         Rm = np.asarray(m.detect_tilt(tx, ty, tz), float)
         ctx.near("detect_tilt=RxRyRz", O.maxabs(Rm - R), 1e-12, "detect_tilt", "%s.detect_tilt differs from RxRyRz" % mname)
     L, py, pz, y0, z0, wl = case["L"], case["py"], case["pz"], case["y0"], case["z0"], case["wl"]
     t = np.array(case["t"], float) + 0.0
     v = np.array([math.cos(tth), -math.sin(tth) * math.sin(eta), math.sin(tth) * math.cos(eta)])
-    Gt = (2 * math.pi / wl) * (v - np.array([1.0, 0, 0]))
+    Gt = O.ro((2 * math.pi / wl) * (v - np.array([1.0, 0, 0])))
     ctx.nontrivial(max(abs(tx), abs(ty), abs(tz)) > 0.05 and O.maxabs(t) > 0.1)
     ctx.event("tilted" if max(abs(tx), abs(ty), abs(tz)) > 0.05 else "flat")
     p1 = np.asarray(D.det_coor(Gt, math.cos(tth), wl, L, py, pz, y0, z0, R, t[0], t[1], t[2]), float)
